@@ -776,9 +776,9 @@ def main(tier, seed, replay=None):
         scens = [json.load(open(replay))["scenario"]]
     else:
         scens = load_corpus() + [scen_merge_shadow(), scen_tags(), scen_mark_text()]
-        nrand = 10 if tier == "quick" else 150
+        nrand = 8 if tier == "quick" else 150
         scens += [gen_scenario(rng, k) for k in range(nrand)]
-    cuts = 3 if tier == "quick" else 12
+    cuts = 2 if tier == "quick" else 12
     nviol, nstates, kinds, known_hits, examined = 0, 0, {}, [], 0
     notes, samples = [], []
     reported = set()
@@ -797,7 +797,7 @@ def main(tier, seed, replay=None):
     for (scen, (base, evs, note)) in zip(tscens, run_traced(tscens)):
         if note:
             notes.append("%s: %s" % (scen["name"], note))
-        metas, states = trace_states(base, evs, rng, 140 if tier == "quick" else 1500)
+        metas, states = trace_states(base, evs, rng, 110 if tier == "quick" else 1500)
         per.append((scen, base, metas, states))
         all_states += states
     recs, rnote = recover_all(all_states, "all")
